@@ -153,6 +153,9 @@ func MapKeys[K ordered, V any](m map[K]V) []K {
 	for k := range m {
 		keys = append(keys, k)
 	}
+	// never the order of the runtime: with statement-counted pre-emption the number of iterations a loop over a map needs before
+	// it finds what it looks for moves every later pre-emption point, and a run would not replay
+	sort.Slice(keys, func(i, j int) bool { return keys[i] < keys[j] })
 	s := Sim
 	if s == nil {
 		return keys
@@ -161,7 +164,6 @@ func MapKeys[K ordered, V any](m map[K]V) []K {
 	if !ok {
 		return keys
 	}
-	sort.Slice(keys, func(i, j int) bool { return keys[i] < keys[j] })
 	x := seed*0x9E3779B97F4A7C15 + uint64(len(keys)) | 1
 	for i := len(keys) - 1; i > 0; i-- {
 		x ^= x << 13
